@@ -1,7 +1,7 @@
 """C18 -- ed-style patch scripts are applied exactly."""
 import ast
 
-from .. import rx, cfg
+from .. import rx, cfg, normalize
 from ..core import AnalysisError, norm, walk_no_nested
 from ..flow import Aff, Facts, cmp_to_constraints
 
@@ -272,13 +272,20 @@ class TableAnalysis:
                     raise AnalysisError('%s: augmented assignment on non-integers: %s' % (self.f.site, norm(st)))
                 env[st.target.id] = cur + d if isinstance(st.op, ast.Add) else cur - d
                 continue
+            if isinstance(st, ast.If) and any(isinstance(n_, ast.Name) and env.get(n_.id) == ('streamflag',) for n_ in ast.walk(st.test)):
+                # a test on state of the text-block loop (how the stream ended): both outcomes, decided by C18.R3
+                for branch in (st.body, st.orelse):
+                    e2 = dict(env)
+                    e2['$stream'] = True
+                    self.explore(list(branch) + list(stmts[i + 1:]), e2, facts, key)
+                return
             if isinstance(st, ast.If):
                 for truth, f2 in self.cond(st.test, env, facts):
                     self.explore(list(st.body if truth else st.orelse) + list(stmts[i + 1:]), dict(env), f2, key)
                 return
             if isinstance(st, ast.Raise):
                 exc = norm(st.exc.func) if isinstance(st.exc, ast.Call) else norm(st.exc)
-                self.rows.append(dict(key=key, kind='raise', exc=exc, facts=facts, line=st.lineno))
+                self.rows.append(dict(key=key, kind='raise', exc=exc, facts=facts, line=st.lineno, stream=bool(env.get('$stream'))))
                 return
             if isinstance(st, ast.Continue):
                 return
@@ -296,6 +303,11 @@ class TableAnalysis:
                 if env.get(lst) != ('emptylist',):
                     raise AnalysisError('%s: text-block list %s is not initialised to []' % (self.f.site, lst))
                 env[lst] = ('textblock', norm(tgt[0].args[0]) == norm(st.target))
+                for n_ in ast.walk(st):
+                    if isinstance(n_, ast.Assign):
+                        for t_ in n_.targets:
+                            if isinstance(t_, ast.Name) and t_.id != lst:
+                                env[t_.id] = ('streamflag',)
                 continue
             raise AnalysisError('%s: statement outside the table vocabulary: %s' % (self.f.site, norm(st)[:60]))
 
@@ -342,6 +354,8 @@ def r2_r4_table(rep, src, roles):
             continue
         # valid commands must not be rejected
         for r in raises:
+            if r.get('stream'):
+                continue      # raised because of how the text block ended, not because of the command
             both = Facts(r['facts'].items + valid.items)
             if not both.inconsistent():
                 rep.fail('C18.R2', f.site, label + ': valid commands accepted',
@@ -387,6 +401,72 @@ def r2_r4_table(rep, src, roles):
         raise AnalysisError('%s: only %d command/range combinations analysed' % (f.site, len(bykey)))
 
 
+def _flag_value(test, st):
+    """truth of a test that reads only boolean flags with a known value, else None"""
+    if isinstance(test, ast.Name):
+        return st.get(test.id)
+    if isinstance(test, ast.UnaryOp) and isinstance(test.op, ast.Not):
+        v = _flag_value(test.operand, st)
+        return None if v is None else not v
+    if isinstance(test, ast.Compare) and len(test.ops) == 1 and isinstance(test.ops[0], (ast.Is, ast.IsNot, ast.Eq, ast.NotEq)) \
+            and isinstance(test.comparators[0], ast.Constant) and isinstance(test.comparators[0].value, bool):
+        v = _flag_value(test.left, st)
+        if v is None:
+            return None
+        r = v == test.comparators[0].value
+        return r if isinstance(test.ops[0], (ast.Is, ast.Eq)) else not r
+    if isinstance(test, ast.BoolOp):
+        vs = [_flag_value(v, st) for v in test.values]
+        if isinstance(test.op, ast.And):
+            return False if any(v is False for v in vs) else True if all(v is True for v in vs) else None
+        return True if any(v is True for v in vs) else False if all(v is False for v in vs) else None
+    return None
+
+
+def failing_exit_reaches(g, inner, t, success_nodes, goal_ids):
+    """path search over the CFG that tracks (a) how the text-block loop was left -- through the branch of the "." line or any
+    other way (stream exhausted, another break) -- and (b) the values of local boolean flags assigned constants, so that
+    `terminated = True ... if not terminated: raise` is followed like the for/else form.  Returns a goal node reachable
+    after an unsuccessful end of the loop, or None."""
+    it_ids = [p for p, _ in g.pred[t.id] if g.nodes[p].ast is inner.iter]
+    inside = {id(n_) for n_ in ast.walk(inner)}
+    seen = set()
+    stack = [(g.entry.id, None, frozenset())]
+    while stack:
+        key = stack.pop()
+        if key in seen:
+            continue
+        seen.add(key)
+        n, tag, st = key
+        node = g.nodes[n]
+        if n in goal_ids and tag == 'fail':
+            return node
+        d = dict(st)
+        if node.kind == 'stmt' and isinstance(node.ast, (ast.Assign, ast.AugAssign, ast.AnnAssign)):
+            tg = node.ast.targets if isinstance(node.ast, ast.Assign) else [node.ast.target]
+            for x in tg:
+                for nm in [y.id for y in ast.walk(x) if isinstance(y, ast.Name)]:
+                    v = node.ast.value if isinstance(node.ast, ast.Assign) and len(tg) == 1 and isinstance(x, ast.Name) else None
+                    if isinstance(v, ast.Constant) and isinstance(v.value, bool):
+                        d[nm] = v.value
+                    else:
+                        d.pop(nm, None)
+        if node.kind in ('break', 'return') and node.ast is not None and id(node.ast) in inside and tag is None:
+            tag = 'ok' if id(node.ast) in success_nodes else 'fail'
+        for dst, lab in g.succ[n]:
+            t2 = tag
+            if n == t.id and lab == 'exhausted':
+                t2 = 'fail'
+            if dst == t.id and n in it_ids:
+                t2 = None
+            if node.kind == 'test' and lab in (True, False):
+                v = _flag_value(node.ast, d)
+                if v is not None and v != lab:
+                    continue
+            stack.append((dst, t2, frozenset(d.items())))
+    return None
+
+
 def r3_terminator(rep, src):
     """the loop that collects the text of an a/c command -- in patches_from_ed_script itself or in a helper it calls -- ends
     successfully only at the "." line; when the stream is exhausted (or yields the empty string) no patch is produced"""
@@ -417,19 +497,6 @@ def r3_terminator(rep, src):
         goals = [n for n in g.nodes if n.kind == 'return' and n.ast is not None and n.ast.value is not None and norm(n.ast.value) == lst]
     if not goals:
         raise AnalysisError('%s: the collected text is never handed on' % fn.site)
-    exhausted = [d for d, lab in g.succ[t.id] if lab == 'exhausted']
-    bad = None
-    for s_ in exhausted:
-        for y in goals:
-            if s_ == y.id or g.exists_path(s_, y.id, avoid=avoid):
-                bad = y
-    if bad is not None:
-        rep.fail('C18.R3', fn.site, 'text block must end with "."',
-                 'when the input ends inside the text of an a/c command the loop falls through to `%s`: an unterminated block '
-                 'produces a patch instead of ValueError' % norm(bad.ast), where='%s:%d' % (fn.module.relpath, inner.lineno))
-    else:
-        rep.ok('C18.R3', fn.site, 'text block must end with "."', 'the loop-exhaustion edge cannot reach the %s' % ('yield' if how == 'inline' else 'return of the text'))
-    # the terminator: the test that leaves the loop successfully compares the line with exactly the "." line (str and bytes)
     lv = inner.target.id
     consts = fn.module.consts.get('', {})
 
@@ -445,17 +512,43 @@ def r3_terminator(rep, src):
             v = consts[e.id]
             return set(v) if isinstance(v, (tuple, list, frozenset)) else {v}
         return None
+
+    def dot_test(test):
+        """+1: the test holds for the "." line (In/Eq), -1: it fails for it (NotIn/NotEq), 0: not a terminator test"""
+        tt = test.test
+        if not (isinstance(tt, ast.Compare) and len(tt.ops) == 1 and norm(tt.left) == lv and isinstance(tt.ops[0], (ast.In, ast.Eq, ast.NotIn, ast.NotEq))):
+            return 0, None
+        vals = const_set(tt.comparators[0])
+        if vals is None or not any(isinstance(v, (str, bytes)) and v.strip() in ('.', b'.') for v in vals):
+            return 0, None
+        return (1 if isinstance(tt.ops[0], (ast.In, ast.Eq)) else -1), vals
+    # how each way out of the loop is classified: leaving from the branch taken for the "." line is the successful end
+    success_nodes = set()
+    for test in [n for n in walk_no_nested(inner) if isinstance(n, ast.If)]:
+        pol, _ = dot_test(test)
+        branch = test.body if pol > 0 else test.orelse if pol < 0 else []
+        for st_ in branch:
+            for n_ in ast.walk(st_):
+                if isinstance(n_, (ast.Break, ast.Return)):
+                    success_nodes.add(id(n_))
+    bad = failing_exit_reaches(g, inner, t, success_nodes, {y.id for y in goals})
+    if bad is not None:
+        rep.fail('C18.R3', fn.site, 'text block must end with "."',
+                 'when the input ends inside the text of an a/c command (or the loop is left other than at the "." line) control reaches `%s`: '
+                 'an unterminated block produces a patch instead of ValueError' % norm(bad.ast)[:60], where='%s:%d' % (fn.module.relpath, inner.lineno))
+    else:
+        rep.ok('C18.R3', fn.site, 'text block must end with "."', 'no way out of the loop other than the "." branch reaches the %s (boolean flags followed)'
+               % ('yield' if how == 'inline' else 'return of the text'))
+    # the terminator: the test that leaves the loop successfully compares the line with exactly the "." line (str and bytes)
     okterm = False
     why = 'no test of the line against the "." terminator leaves the loop'
     for test in [n for n in walk_no_nested(inner) if isinstance(n, ast.If)]:
-        tt = test.test
-        if not (isinstance(tt, ast.Compare) and len(tt.ops) == 1 and norm(tt.left) == lv and isinstance(tt.ops[0], (ast.In, ast.Eq))):
+        pol, vals = dot_test(test)
+        if pol == 0:
             continue
-        vals = const_set(tt.comparators[0])
-        if vals is None or not any(isinstance(v, (str, bytes)) and v.strip() in ('.', b'.') for v in vals):
-            continue
-        leaves_ok = any(isinstance(b_, ast.Break) for b_ in test.body) if how == 'inline' else \
-            any(isinstance(b_, ast.Return) and b_.value is not None and norm(b_.value) == lst for b_ in test.body)
+        branch = test.body if pol > 0 else test.orelse
+        leaves_ok = any(isinstance(b_, ast.Break) for b_ in branch) if how == 'inline' else \
+            any(isinstance(b_, ast.Return) and b_.value is not None and norm(b_.value) == lst for b_ in branch)
         if not leaves_ok:
             why = 'the "." test does not end the block'
             continue
@@ -496,30 +589,112 @@ def r5_application(rep, src):
         raise AnalysisError('%s: expected one loop' % f.site)
     lp = loops[0]
     params = f.params()
-    ok = isinstance(lp.iter, ast.Name) and lp.iter.id == params[1] and isinstance(lp.target, ast.Tuple) and len(lp.target.elts) == 3
     why = 'the patches are not applied one by one in script order'
+    ok = isinstance(lp.iter, ast.Name) and lp.iter.id == params[1] and not lp.orelse
     if ok:
-        a, b, c = [norm(x) for x in lp.target.elts]
-        asg = [s for s in lp.body if isinstance(s, ast.Assign)]
-        ok = len(lp.body) == 1 and len(asg) == 1 and isinstance(asg[0].targets[0], ast.Subscript) \
-            and norm(asg[0].targets[0].value) == params[0] and isinstance(asg[0].targets[0].slice, ast.Slice) \
-            and norm(asg[0].targets[0].slice.lower) == a and norm(asg[0].targets[0].slice.upper) == b \
-            and asg[0].targets[0].slice.step is None and norm(asg[0].value) == c
-        why = 'the slice assignment does not use (first, last, lines) in the positions the producer yields'
+        # element k of the current patch triple, followed through unpacking / indexing of the loop variable
+        env = {}
+
+        def bind(target, value):
+            if isinstance(target, ast.Name):
+                env[target.id] = value
+            elif isinstance(target, (ast.Tuple, ast.List)) and value == ('patch',) and len(target.elts) == 3:
+                for k, t_ in enumerate(target.elts):
+                    bind(t_, ('elem', k))
+            else:
+                raise AnalysisError('%s: binding outside the modelled forms: %s' % (f.site, norm(target)))
+
+        def val(e):
+            if isinstance(e, ast.Name):
+                return env.get(e.id, ('other', e.id))
+            if isinstance(e, ast.Subscript) and val(e.value) == ('patch',) and isinstance(e.slice, ast.Constant) and e.slice.value in (0, 1, 2):
+                return ('elem', e.slice.value)
+            if isinstance(e, ast.Call) and isinstance(e.func, ast.Name) and e.func.id == 'slice' and len(e.args) == 2 and not e.keywords:
+                return ('slice', val(e.args[0]), val(e.args[1]))
+            if isinstance(e, ast.Slice) and e.step is None and e.lower is not None and e.upper is not None:
+                return ('slice', val(e.lower), val(e.upper))
+            return ('other', norm(e))
+        bind(lp.target, ('patch',))
+        stores = []
+        for st in lp.body:
+            if isinstance(st, ast.Expr) and isinstance(st.value, ast.Constant):
+                continue
+            if isinstance(st, ast.Assign) and len(st.targets) == 1 and isinstance(st.targets[0], (ast.Name, ast.Tuple, ast.List)):
+                bind(st.targets[0], val(st.value))
+            elif isinstance(st, ast.Assign) and len(st.targets) == 1 and isinstance(st.targets[0], ast.Subscript):
+                stores.append((val(st.targets[0].value), val(st.targets[0].slice), val(st.value)))
+            else:
+                stores.append(('other', norm(st)))
+        want = (('other', params[0]), ('slice', ('elem', 0), ('elem', 1)), ('elem', 2))
+        ok = stores == [want]
+        why = 'the slice assignment does not use (first, last, lines) in the positions the producer yields: %r' % (stores,)
     if ok:
-        rep.ok('C18.R5', f.site, 'application', 'for (f, l, a) in patches: lines[f:l] = a')
+        rep.ok('C18.R5', f.site, 'application', 'for each patch p in order: lines[p[0]:p[1]] = p[2]')
     else:
         rep.fail('C18.R5', f.site, 'application', why, where=f.where)
-    # the regex is chosen by the type of the line
+    # the regex is chosen by the type of the line (helpers inlined): the value matched against a bytes line is the regex whose
+    # pattern is bytes
     g = src.func(SITE)
-    sel = [n for n in ast.walk(g.node) if isinstance(n, ast.IfExp) and 'isinstance' in norm(n.test)]
-    if sel and norm(sel[0].body) == '_patch_re_b' and norm(sel[0].orelse) == '_patch_re' and 'bytes' in norm(sel[0].test):
-        rep.ok('C18.R5', g.site, 'regex selection by input type', norm(sel[0]), nontrivial=False)
+    gnode, _ = normalize.inline_helpers(g, depth=2)
+    mod = g.module
+
+    def regex_kind(e):
+        if isinstance(e, ast.Name):
+            try:
+                r = src.regex(mod.name, e.id)
+            except (AnalysisError, KeyError):
+                return None
+            return 'bytes' if isinstance(r['pattern'], bytes) else 'str'
+        return None
+
+    def isinstance_kind(t):
+        """('bytes'|'str', polarity) for isinstance(x, bytes|str) and its negation"""
+        pol = True
+        while isinstance(t, ast.UnaryOp) and isinstance(t.op, ast.Not):
+            t, pol = t.operand, not pol
+        if isinstance(t, ast.Call) and norm(t.func) == 'isinstance' and len(t.args) == 2 and norm(t.args[1]) in ('bytes', 'str'):
+            return norm(t.args[1]), pol
+        return None
+    sels = []
+    for n in ast.walk(gnode):
+        if isinstance(n, ast.IfExp) and isinstance_kind(n.test):
+            sels.append((isinstance_kind(n.test), regex_kind(n.body), regex_kind(n.orelse), norm(n)))
+        if isinstance(n, ast.If) and isinstance_kind(n.test) and n.orelse:
+            va = [s.value for s in n.body if isinstance(s, ast.Assign)]
+            vb = [s.value for s in n.orelse if isinstance(s, ast.Assign)]
+            if len(va) == 1 and len(vb) == 1 and regex_kind(va[0]) and regex_kind(vb[0]):
+                sels.append((isinstance_kind(n.test), regex_kind(va[0]), regex_kind(vb[0]), norm(n.test)))
+    good = []
+    for (kind, pol), ka, kb, txt in sels:
+        if ka is None or kb is None:
+            continue
+        other = 'str' if kind == 'bytes' else 'bytes'
+        exp = (kind, other) if pol else (other, kind)
+        if (ka, kb) == exp:
+            good.append(txt)
+        else:
+            good = []
+            break
+    if good:
+        rep.ok('C18.R5', g.site, 'regex selection by input type', good[0][:80], nontrivial=False)
     else:
         rep.fail('C18.R5', g.site, 'regex selection by input type', 'bytes lines are not matched with the bytes regex (or vice versa)', where=g.where)
     # the no-match guard raises ValueError
-    nm = [n for n in walk_no_nested(g.node) if isinstance(n, ast.If) and norm(n.test) in ('match is None', 'not match')
-          and any(isinstance(s, ast.Raise) and 'ValueError' in norm(s) for s in n.body)]
+    mvars = {s.targets[0].id for s in ast.walk(gnode) if isinstance(s, ast.Assign) and isinstance(s.targets[0], ast.Name) and isinstance(s.value, ast.Call)
+             and isinstance(s.value.func, ast.Attribute) and s.value.func.attr in ('match', 'fullmatch')}
+
+    def raises_value_error(stmts):
+        return any(isinstance(s, ast.Raise) and 'ValueError' in norm(s) for s in stmts)
+    nm = []
+    for n in walk_no_nested(gnode):
+        if not isinstance(n, ast.If):
+            continue
+        t = norm(n.test)
+        for mv in mvars:
+            if t in ('%s is None' % mv, 'not %s' % mv) and raises_value_error(n.body):
+                nm.append(n)
+            if t in ('%s is not None' % mv, mv) and raises_value_error(n.orelse):
+                nm.append(n)
     if nm:
         rep.ok('C18.R5', g.site, 'unparsable command line', 'raises ValueError', nontrivial=False)
     else:
